@@ -22,7 +22,14 @@ ASSUMPTIONS = [
     "Q(s1, s2, k, track): s1 in S(k), s2 in S(k+1) (docstring of HMM); P(s, y, k, track): y = observation of epoch k",
     "likelihoods are 0 or in [1e-6, 4]; T <= 8 epochs, 1..5 candidate states per epoch, labels unique within an epoch",
     "enumeration oracle: every one of the prod(S_k) <= 5^8 sequences is scored; comparisons 1e-9 relative (+1e-9 absolute)",
-    "log=True clause only on strictly positive tables (log 0 is undefined)",
+    "log=True clause on likelihood tables: only on strictly positive tables (log 0 is undefined)",
+    "log mode with tables of their own (model fields LP, LQ instead of P, Q; log=True through the constructor or setLog): the "
+    "callbacks return the table entries as they are; log mode applies no smoothing (Qlog/Plog return the value unchanged), so the "
+    "cost of a sequence is sum(-LP) + sum(-LQ), whatever the magnitude: entries in [-5625, 50] (far below log(1e-300) = -690.78, "
+    "around it, positive = unnormalised likelihood > 1, ties) and -inf (likelihood 0).  A -inf entry makes every sequence through it "
+    "impossible (cost +inf); the decoding is judged when the enumeration minimum is finite (the decoded sequence and hmm_cost[last] "
+    "must attain it, tolerance 1e-9 relative + 1e-9 + 1e-13 x sum of the largest |entry| per table), a model whose every sequence "
+    "is impossible is not executed (nothing defined); +inf / NaN entries are outside the domain",
     "history: the statement holds for every call of estimate, so a decoding is judged against the enumeration of the model of THAT call, "
     "whether the track is new, was decoded before (with this or another model, other candidate counts) or already carries "
     "features named hmm_inference / hmm_cost; the epoch count of a track is fixed, the observation features are not touched",
@@ -48,13 +55,26 @@ def _le(a, b):
 
 
 # --- oracle ---------------------------------------------------------------------------------------
-def seq_cost(P, Q, idx):
+def _neg(v):
+    return -v
+
+
+def seq_cost(P, Q, idx, direct=False):
+    """direct: the tables hold log-likelihoods themselves (log mode, no smoothing applies): cost = sum of (-value)"""
+    f = _neg if direct else _nl
     c = 0.0
     for k, i in enumerate(idx):
-        c += _nl(P[k][i])
+        c += f(P[k][i])
     for k in range(len(idx) - 1):
-        c += _nl(Q[k][idx[k]][idx[k + 1]])
+        c += f(Q[k][idx[k]][idx[k + 1]])
     return c
+
+
+def _scale(P, Q):
+    """upper bound of the sum of |finite term| along any sequence of direct log tables (rounding errors of the two
+    summation orders are proportional to it, also where terms of both signs cancel)"""
+    fin = lambda vs: max([abs(v) for v in vs if abs(v) != math.inf] + [0.0])
+    return sum(fin(r) for r in P) + sum(fin([v for row in m for v in row]) for m in Q)
 
 
 def seq_prod(P, Q, idx):
@@ -66,8 +86,31 @@ def seq_prod(P, Q, idx):
     return v
 
 
-def enumerate_all(P, Q):
+def enumerate_direct(LP, LQ):
+    """direct log tables: (min over ALL sequences of sum(-value), None, number of sequences within tolerance of it);
+    -inf entries give +inf costs (never NaN: +inf entries are outside the domain)"""
+    shape = [len(r) for r in LP]
+    T = len(shape)
+    C = np.zeros(shape)
+    for k in range(T):
+        sh = [1] * T
+        sh[k] = shape[k]
+        C = C + (-np.array(LP[k], dtype=float)).reshape(sh)
+    for k in range(T - 1):
+        sh = [1] * T
+        sh[k], sh[k + 1] = shape[k], shape[k + 1]
+        C = C + (-np.array(LQ[k], dtype=float)).reshape(sh)
+    cmin = float(C.min())
+    if cmin == math.inf:
+        return cmin, None, int(C.size)
+    tol = ABS + REL * abs(cmin) + 1e-13 * _scale(LP, LQ)
+    return cmin, None, int((C <= cmin + tol).sum())
+
+
+def enumerate_all(P, Q, direct=False):
     """(min cost, max product, number of sequences within tolerance of the min cost) over ALL sequences."""
+    if direct:
+        return enumerate_direct(P, Q)
     shape = [len(r) for r in P]
     total = 1
     for s in shape:
@@ -144,8 +187,10 @@ def _handover(states, share):
     return objs, longest
 
 
-def _decode(states, P, Q, obs, log, api, verbose, track=None, share="fresh"):
-    """Runs HMM.estimate on `track` (a fresh one if None); returns (list of decoded indices, hmm_cost at the last epoch)."""
+def _decode(states, P, Q, obs, log, api, verbose, track=None, share="fresh", direct=False):
+    """Runs HMM.estimate on `track` (a fresh one if None); returns (list of decoded indices, hmm_cost at the last epoch).
+    direct: P, Q are log-likelihood tables handed over as they are (requires log=True)."""
+    assert log or not direct
     T = len(states)
     nobs = len(obs[0])
     names = ["obs_a", "obs_b"][:nobs]
@@ -155,7 +200,7 @@ def _decode(states, P, Q, obs, log, api, verbose, track=None, share="fresh"):
     objs, _ = _handover(states, share)
 
     def tab(v):
-        return math.log(v) if log else v
+        return v if direct or not log else math.log(v)
 
     def S(t, k):
         return list(states[k]) if objs is None else objs[k]
@@ -201,14 +246,19 @@ def _positive(P, Q):
     return all(v > 0 for row in P for v in row) and all(v > 0 for m in Q for row in m for v in row)
 
 
-def _judge(idx, last, P, Q, cmin, pmax, log, what):
+def _judge(idx, last, P, Q, cmin, pmax, log, what, direct=False):
     """One decoding against the enumeration of ITS model (whatever was decoded on the track before)."""
     pre = "log-mode-" if log else "decoded-"
-    c = seq_cost(P, Q, idx)
-    if not _le(c, cmin):
+    c = seq_cost(P, Q, idx, direct)
+    slack = 1e-13 * _scale(P, Q) if direct else 0.0
+
+    def le(a, b):
+        return _le(a, b + slack)
+
+    if not le(c, cmin):
         raise Violation(pre + "suboptimal", "%sdecoded %r costs %r, enumeration minimum %r; %s"
                         % ("log=True " if log else "", idx, c, cmin, what))
-    if not (isinstance(last, (int, float)) and _le(last, cmin) and _le(cmin, last)):
+    if not (isinstance(last, (int, float)) and le(last, cmin) and le(cmin, last)):
         raise Violation("log-mode-last-cost-wrong" if log else "last-cost-wrong",
                         "%shmm_cost[last] = %r, enumeration minimum %r; %s" % ("log=True " if log else "", last, cmin, what))
     if not log:
@@ -238,6 +288,36 @@ def _model_classes(states, P, Q, cmin, pmax, ties, positive, with_log):
         cls.append("log-clause")
     if len(set(sizes)) > 1:
         cls.append("sizes-vary")
+    return nt, cls
+
+
+LOG_FLOOR = math.log(1e-300)          # ~ -690.78: what a null likelihood becomes in linear mode; no bound in log mode
+
+
+def _direct_classes(states, LP, LQ, cmin, ties, idx):
+    """labels of a model given by log tables; idx = the accepted (optimal) decoding"""
+    T = len(states)
+    sizes = [len(r) for r in states]
+    greedy = [max(range(len(r)), key=lambda i: (r[i], -i)) for r in LP]
+    greedy_opt = seq_cost(LP, LQ, greedy, True) <= cmin + ABS + REL * abs(cmin) + 1e-13 * _scale(LP, LQ)
+    nt = T >= 2 and max(sizes) >= 2 and not greedy_opt
+    vals = [v for r in LP for v in r] + [v for m in LQ for row in m for v in row]
+    used = [LP[k][i] for k, i in enumerate(idx)] + [LQ[k][idx[k]][idx[k + 1]] for k in range(T - 1)]
+    cls = ["log-direct", "log-direct:" + ("T=1" if T == 1 else "T=2-3" if T <= 3 else "T=4-8")]
+    if max(sizes) >= 2:
+        cls.append("log-direct:greedy-optimal" if greedy_opt else "log-direct:greedy-suboptimal")
+    if ties >= 2:
+        cls.append("log-direct:tied-optimum")
+    if any(v == -math.inf for v in vals):
+        cls.append("log-direct:has-neg-inf")
+    if any(v > 0 for v in vals):
+        cls.append("log-direct:has-positive-log")
+    if any(-math.inf < v < LOG_FLOOR for v in vals):
+        cls.append("log-direct:has-value<log(1e-300)")
+    if any(v < LOG_FLOOR for v in used):
+        cls.append("log-direct:optimum-runs-through-value<log(1e-300)")
+    if cmin < 0:
+        cls.append("log-direct:optimal-cost-negative")
     return nt, cls
 
 
@@ -274,19 +354,24 @@ def body_model(case):
     seen = []
     for j, m in enumerate(models):
         states = _states_of(m)
-        P, Q = m["P"], m["Q"]
+        direct = "LP" in m                    # log-likelihood tables of their own (log mode), not derived from likelihoods
+        P, Q = (m["LP"], m["LQ"]) if direct else (m["P"], m["Q"])
         api, verbose, share = m.get("api", 0), m.get("verbose", 0), m.get("share", "fresh")
-        cmin, pmax, ties = enumerate_all(P, Q)
-        positive = _positive(P, Q)
-        what = "decoding %d of %d (track=%s share=%s) states=%r P=%r Q=%r" % (
-            j + 1, len(models), case.get("track", "fresh"), share, states, P, Q)
+        cmin, pmax, ties = enumerate_all(P, Q, direct)
+        positive = _positive(P, Q) if not direct else False
+        what = "decoding %d of %d (track=%s share=%s%s) states=%r P=%r Q=%r" % (
+            j + 1, len(models), case.get("track", "fresh"), share, " LOG VALUES" if direct else "", states, P, Q)
+        if direct and cmin == math.inf:
+            # every sequence runs through a -inf: all have likelihood 0, nothing is defined for this call - not executed
+            cls.append("log-direct:every-path-impossible(skipped)")
+            continue
         # first model: likelihoods, then (positive tables) logarithms, as before; later models: the drawn flag
-        logs = ([False, True] if positive else [False]) if j == 0 else [bool(m.get("log", False)) and positive]
+        logs = [True] if direct else ([False, True] if positive else [False]) if j == 0 else [bool(m.get("log", False)) and positive]
         for log in logs:
             tr = track if same_track else _new_track(T, obs, prefilled)
             try:
-                idx, last = _decode(states, P, Q, obs, log, api, verbose, tr, share)
-                _judge(idx, last, P, Q, cmin, pmax, log, what)
+                idx, last = _decode(states, P, Q, obs, log, api, verbose, tr, share, direct)
+                _judge(idx, last, P, Q, cmin, pmax, log, what, direct)
             except Violation as v:
                 # root-cause label: does the same model decode correctly on a new track / with lists built per call?
                 used = prefilled or (same_track and ndec > 0)
@@ -294,17 +379,21 @@ def body_model(case):
                     if not cond:
                         continue
                     try:
-                        i2, l2 = _decode(states, P, Q, obs, log, api, 0, None, sh)
-                        _judge(i2, l2, P, Q, cmin, pmax, log, what)
+                        i2, l2 = _decode(states, P, Q, obs, log, api, 0, None, sh, direct)
+                        _judge(i2, l2, P, Q, cmin, pmax, log, what, direct)
                     except Violation:
                         continue
                     raise Violation(pre + v.key, v.msg)
                 raise
             ndec += 1
-        nt_j, cls_j = _model_classes(states, P, Q, cmin, pmax, ties, positive, j == 0)
+        if direct:
+            nt_j, cls_j = _direct_classes(states, P, Q, cmin, ties, idx)
+            cls += cls_j
+        else:
+            nt_j, cls_j = _model_classes(states, P, Q, cmin, pmax, ties, positive, j == 0)
         nt = nt or nt_j
         if j == 0:
-            cls += cls_j
+            cls += [] if direct else cls_j
             shared = any(set(states[k]) & set(states[k + 1]) for k in range(T - 1))
             cls.append("labels-shared-between-epochs" if shared else "labels-disjoint")
         else:
@@ -332,9 +421,8 @@ def body_model(case):
     return {"nt": nt, "cls": sorted(set(cls))}
 
 
-@st.composite
-def _tables(draw, T, force_states=None):
-    """states + P + Q of one model over T epochs"""
+def _draw_states(draw, T, force_states=None):
+    """candidate lists of one model over T epochs"""
     lmode = draw(st.sampled_from(["perm", "perm", "same-order", "epoch-tagged", "runs", "runs", "one-list"]))
     if force_states is not None:
         states = force_states
@@ -370,6 +458,44 @@ def _tables(draw, T, force_states=None):
             states = [[[k, i] for i in range(n)] for k, n in enumerate(sizes)]
         else:
             states = [list(draw(st.permutations(LABEL_POOL))[:n]) for n in sizes]
+    return states, sizes
+
+
+NEG_INF = -math.inf
+
+
+def _log_values(draw):
+    """strategy of the entries of a log-likelihood table generated DIRECTLY (no likelihood table behind it): Gaussian
+    log-densities -(d^2)/2, values far below log(1e-300) = -690.78, a lattice around that number, small values of both
+    signs with ties, positive ones (unnormalised likelihood > 1), and -inf (likelihood 0) sprinkled in"""
+    gauss = st.integers(0, 100).map(lambda d: -(d * d) / 2.0)
+    gauss20 = st.integers(0, 1500).map(lambda d: -((d / 20.0) ** 2))          # MarkovRegularization style, down to -5625
+    deep = st.floats(min_value=-5000.0, max_value=-700.0, allow_nan=False)
+    deep_lat = st.sampled_from([-700.0, -800.0, -1000.0, -1012.5, -2500.0, -5000.0])
+    around = st.sampled_from([-680.0, -690.0, -690.5, -690.75, -691.0, -692.0, -700.0, -720.5])
+    small = st.sampled_from([-2.0, -1.0, -0.5, 0.0, 0.5, 1.0])
+    pos = st.floats(min_value=0.0, max_value=50.0, allow_nan=False)
+    wide = st.floats(min_value=-5000.0, max_value=50.0, allow_nan=False)
+    vmode = draw(st.sampled_from(["gauss", "gauss20", "deep", "deep-lattice", "around-floor", "small", "positive", "wide",
+                                  "mixed", "mixed"]))
+    val = {"gauss": gauss, "gauss20": gauss20, "deep": deep, "deep-lattice": deep_lat, "around-floor": around, "small": small,
+           "positive": st.one_of(pos, small), "wide": wide,
+           "mixed": st.one_of(gauss, deep, deep_lat, around, small, wide)}[vmode]
+    if draw(st.integers(0, 3)) == 0:
+        val = st.one_of(val, val, val, val, val, val, val, val, val, st.just(NEG_INF))
+    return val
+
+
+@st.composite
+def _tables(draw, T, force_states=None, direct=False):
+    """states + P + Q of one model over T epochs; direct: states + LP + LQ (log-likelihood tables of their own)"""
+    states, sizes = _draw_states(draw, T, force_states)
+    if direct:
+        val = _log_values(draw)
+        LP = [draw(st.lists(val, min_size=n, max_size=n)) for n in sizes]
+        LQ = [[draw(st.lists(val, min_size=sizes[k + 1], max_size=sizes[k + 1])) for _ in range(sizes[k])]
+              for k in range(T - 1)]
+        return {"states": states, "LP": LP, "LQ": LQ}
     vmode = draw(st.sampled_from(["lattice", "lattice", "tern", "float", "mixed", "positive-lattice"]))
     lat = st.sampled_from([0.0, 0.25, 0.5, 1.0, 2.0])
     flo = st.floats(min_value=FLOAT_LO, max_value=4.0, allow_nan=False, allow_infinity=False)
@@ -388,7 +514,7 @@ _HOW = {"api": st.integers(0, 1), "verbose": st.sampled_from([0, 0, 0, 0, 1, 2, 
 @st.composite
 def _model(draw):
     T = draw(st.one_of(st.integers(1, 8), st.integers(2, 5)))
-    case = draw(_tables(T))
+    case = draw(_tables(T, direct=draw(st.integers(0, 3)) == 0))
     nobs = draw(st.sampled_from([1, 1, 2]))
     oval = st.one_of(st.integers(-3, 3), st.sampled_from(["u", "v"]), st.just(0.5))
     if nobs == 1:
@@ -404,13 +530,14 @@ def _model(draw):
     then = []
     for _ in range(nthen):
         kind = draw(st.sampled_from(["other", "other", "other-tables", "same"]))
+        direct = draw(st.integers(0, 2)) == 0
         if kind == "same":
             src = draw(st.sampled_from([case] + then))
-            m = {f: src[f] for f in ("states", "P", "Q")}
+            m = {f: src[f] for f in ("states", "P", "Q", "LP", "LQ") if f in src}
         elif kind == "other-tables":
-            m = draw(_tables(T, force_states=case["states"]))
+            m = draw(_tables(T, force_states=case["states"], direct=direct))
         else:
-            m = draw(_tables(T))
+            m = draw(_tables(T, direct=direct))
         for f in ("api", "verbose", "share"):
             m[f] = draw(_HOW[f])
         m["log"] = draw(st.booleans())
@@ -473,12 +600,17 @@ RULE = ("small: EVERY model with T <= 3 epochs, 1..2 states per epoch and all li
         "(ints, strings, tuples; shared or disjoint between epochs), tables from {0,1/4,1/2,1,2}, {0,1/2,1}, floats in [1e-6,4] or mixed, "
         "1- or 2-dimensional observations, both ways of building the HMM, all verbose modes; each model is compared with the "
         "enumeration of all its sequences, and again with log=True when every table entry is positive. "
+        "1 in 4 first models and 1 in 3 later models are LOG models generated directly (fields LP, LQ; no likelihood table behind them): "
+        "entries from Gaussian log-densities -(d^2)/2 (d <= 100) / -(d/20)^2 (d <= 1500), floats in [-5000,-700], a lattice "
+        "{-700..-5000}, a lattice around log(1e-300) = -690.78, {-2..1} with ties, floats in [0,50], floats in [-5000,50] or a mix, "
+        "-inf sprinkled into 1 model of 4 (1 entry in 10); decoded once with log=True and compared with the enumeration of "
+        "sum(-entry) (labels log-direct:*). "
         "Generated history: 0..2 further models (independent / same candidates with other tables / a copy of an earlier one, likelihoods or "
         "logarithms) decoded afterwards either on ONE track object (track=same; up to 4 decodings on it, optionally with hmm_inference / "
         "hmm_cost present before the first) or on a fresh track each (the previous behaviour); every decoding is judged by the enumeration "
         "of its own model.  Generated hand-over of the candidate lists per decoding: share = fresh (new list per call) / epoch (one object per "
         "epoch) / run (consecutive epochs with equal candidates get the same object) / content (all epochs with equal candidates do). "
-        "Non-trivial: T >= 2, some epoch with >= 2 states and the per-epoch greedy argmax of P is not optimal (for some model of the case). "
+        "Non-trivial: T >= 2, some epoch with >= 2 states and the per-epoch greedy argmax of P (LP) is not optimal (for some model of the case). "
         "Distinct = hash of the case.")
 
 SUBCHECKS = [
